@@ -911,3 +911,1482 @@ Theorem infer_sound : forall fuel e s t n',
 Proof.
   intros. apply (infer_sound_gen e fuel [] [] 0 s t n' ER_nil) in H. exact H.
 Qed.
+
+
+(* ------------------------------------------------------------------ the triage functions *)
+
+Lemma ty_eqb_eq : forall t u, ty_eqb t u = true -> t = u.
+Proof.
+  induction t; destruct u; simpl; intros H; try discriminate.
+  - apply Nat.eqb_eq in H; congruence.
+  - apply Nat.eqb_eq in H; congruence.
+  - apply Nat.eqb_eq in H; congruence.
+  - apply andb_true_iff in H as [A B]. f_equal; auto.
+  - f_equal; auto.
+  - reflexivity.
+  - apply andb_true_iff in H as [A B]. apply andb_true_iff in A as [A1 A2].
+    apply Nat.eqb_eq in A1. f_equal; auto.
+Qed.
+
+Definition extends (m m' : subst) : Prop := forall x u, mlookup x m = Some u -> mlookup x m' = Some u.
+
+Lemma extends_refl : forall m, extends m m.
+Proof. intros m x u H; auto. Qed.
+Lemma extends_trans : forall a b c, extends a b -> extends b c -> extends a c.
+Proof. intros a b c H1 H2 x u H; auto. Qed.
+
+Definition covers (m : subst) (t : ty) : Prop := forall x, In x (ftv t) -> mlookup x m <> None.
+
+Lemma covers_extends : forall m m' t, covers m t -> extends m m' -> covers m' t.
+Proof.
+  intros m m' t C E x I. specialize (C x I). destruct (mlookup x m) eqn:L; try congruence.
+  rewrite (E _ _ L). discriminate.
+Qed.
+
+Lemma msubst_stable : forall m m' t, covers m t -> extends m m' -> tsubst (msubst m') t = tsubst (msubst m) t.
+Proof.
+  intros m m' t C E. apply tsubst_ext_in. intros x I. unfold msubst.
+  specialize (C x I). destruct (mlookup x m) eqn:L; try congruence. rewrite (E _ _ L). reflexivity.
+Qed.
+
+Lemma tmatch_sound : forall p t m m',
+  tmatch p t m = Some m' ->
+  extends m m' /\ covers m' p /\ teq (tsubst (msubst m') p) t.
+Proof.
+  induction p; simpl; intros t m m' H.
+  - destruct (mlookup n m) eqn:L.
+    + destruct (ty_eqb t0 t) eqn:E; try discriminate. inv H. apply ty_eqb_eq in E; subst.
+      split; [apply extends_refl|]. split.
+      * intros x [<-|[]]. congruence.
+      * simpl. unfold msubst. rewrite L. apply teq_refl.
+    + inv H. split; [|split].
+      * intros x u Hx. simpl. destruct (x =? n) eqn:E; auto. apply Nat.eqb_eq in E; subst. congruence.
+      * intros x [<-|[]]. simpl. rewrite Nat.eqb_refl. discriminate.
+      * simpl. unfold msubst; simpl. rewrite Nat.eqb_refl. apply teq_refl.
+  - destruct t; try discriminate. destruct (k =? k0) eqn:E; try discriminate. inv H.
+    apply Nat.eqb_eq in E; subst. split; [apply extends_refl|]. split; [intros x []| apply teq_refl].
+  - destruct t; try discriminate. destruct (c =? c0) eqn:E; try discriminate. inv H.
+    apply Nat.eqb_eq in E; subst. split; [apply extends_refl|]. split; [intros x []| apply teq_refl].
+  - destruct t; try discriminate.
+    destruct (tmatch p1 t1 m) as [m1|] eqn:M1; try discriminate.
+    apply IHp1 in M1 as (E1 & C1 & T1). apply IHp2 in H as (E2 & C2 & T2).
+    split; [eapply extends_trans; eauto|]. split.
+    + intros x I. apply in_app_or in I as [I|I]; [exact (covers_extends _ _ _ C1 E2 x I) | apply C2; auto].
+    + apply teq_fun; auto. rewrite (msubst_stable m1 m'); auto.
+  - destruct t; try discriminate.
+    apply IHp in H as (E1 & C1 & T1). split; auto. split; auto. apply teq_array; auto.
+  - destruct t; try discriminate. inv H.
+    split; [apply extends_refl|]. split; [intros x []| apply teq_refl].
+  - destruct (extract l RNil t) eqn:X; try discriminate.
+    destruct (tmatch p1 a m) as [m1|] eqn:M1; try discriminate.
+    apply IHp1 in M1 as (E1 & C1 & T1). apply IHp2 in H as (E2 & C2 & T2).
+    apply extract_found in X.
+    split; [eapply extends_trans; eauto|]. split.
+    + intros x I. apply in_app_or in I as [I|I]; [exact (covers_extends _ _ _ C1 E2 x I) | apply C2; auto].
+    + eapply teq_trans; [| apply teq_sym; exact X].
+      apply teq_cons; auto. rewrite (msubst_stable m1 m'); auto.
+Qed.
+
+(* [instance_of g t = true]: t is a substitution instance of g up to the order of record fields *)
+Theorem instance_of_sound : forall g t,
+  instance_of g t = true -> exists th, teq (tsubst th g) t.
+Proof.
+  unfold instance_of; intros g t H. destruct (tmatch g t []) as [m|] eqn:M; try discriminate.
+  apply tmatch_sound in M as (_ & _ & T). eauto.
+Qed.
+
+Theorem alpha_eq_sound : forall t u,
+  alpha_eq t u = true ->
+  (exists th, teq (tsubst th t) u) /\ (exists th, teq (tsubst th u) t).
+Proof.
+  unfold alpha_eq; intros t u H. apply andb_true_iff in H as [A B].
+  split; apply instance_of_sound; auto.
+Qed.
+
+(* canonical form *)
+Lemma row_insert_teq : forall l a r, teq (row_insert l a r) (RCons l a r).
+Proof.
+  induction r; simpl; try apply teq_refl.
+  destruct (l0 <? l) eqn:E; try apply teq_refl.
+  apply Nat.ltb_lt in E.
+  eapply teq_trans. apply teq_cons. apply teq_refl. apply IHr2.
+  apply teq_swap. lia.
+Qed.
+
+Lemma sort_rows_teq : forall t, teq (sort_rows t) t.
+Proof.
+  induction t; simpl; try apply teq_refl.
+  - apply teq_fun; auto.
+  - apply teq_array; auto.
+  - eapply teq_trans. apply row_insert_teq. apply teq_cons; auto.
+Qed.
+
+Lemma dedup_In : forall l seen x, In x l -> In x seen \/ In x (dedup seen l).
+Proof.
+  induction l; simpl; intros seen x H; try tauto.
+  destruct H as [<-|H].
+  - destruct (memb a seen) eqn:M.
+    + left. apply memb_In; auto.
+    + right. left; auto.
+  - destruct (memb a seen) eqn:M.
+    + apply IHl; auto.
+    + destruct (IHl (a :: seen) x H) as [[<-|I]|I]; simpl; auto.
+Qed.
+
+Lemma index_of_nth : forall x l i, index_of x l = Some i -> nth i l 0 = x.
+Proof.
+  induction l; simpl; intros i H; try discriminate.
+  destruct (x =? a) eqn:E.
+  - inv H. apply Nat.eqb_eq in E; auto.
+  - destruct (index_of x l) eqn:I; try discriminate. inv H. simpl. auto.
+Qed.
+
+Lemma In_index_of : forall x l, In x l -> exists i, index_of x l = Some i.
+Proof.
+  induction l; simpl; intros H; try tauto.
+  destruct (x =? a) eqn:E; eauto.
+  destruct H as [->|H]. { rewrite Nat.eqb_refl in E; discriminate. }
+  destruct (IHl H) as [i ->]. simpl; eauto.
+Qed.
+
+(* [canon t] and t are renamings of each other, up to the order of record fields *)
+Theorem canon_alpha : forall t,
+  (exists r, teq (tsubst r t) (canon t)) /\ (exists r', teq (tsubst r' (canon t)) t).
+Proof.
+  intros t. unfold canon.
+  set (t' := sort_rows t). set (vs := dedup [] (ftv t')).
+  split.
+  - exists (rename_fun vs). apply teq_tsubst. apply teq_sym. apply sort_rows_teq.
+  - exists (fun i => TVar (nth i vs 0)).
+    rewrite tsubst_comp.
+    rewrite (tsubst_ext_in _ TVar t').
+    + rewrite tsubst_id. apply sort_rows_teq.
+    + intros x I. unfold rename_fun.
+      destruct (dedup_In (ftv t') [] x I) as [[]|I'].
+      destruct (In_index_of x vs I') as [i E]. rewrite E. simpl.
+      f_equal. apply index_of_nth; auto.
+Qed.
+
+
+(* ------------------------------------------------------------------ fresh variables *)
+
+Definition below (n : nat) (t : ty) : Prop := forall x, In x (ftv t) -> x < n.
+Definition env_below (G : env) (n : nat) : Prop := forall x, In x (ftv_env G) -> x < n.
+Definition eqs_below (n : nat) (eqs : list (ty * ty)) : Prop :=
+  Forall (fun p => below n (fst p) /\ below n (snd p)) eqs.
+Definition new_sub (n : nat) (s : subst) : Prop :=
+  (forall x, x < n -> below n (sfun s x)) /\ (forall x, n <= x -> sfun s x = TVar x).
+
+Lemma below_mono : forall n m t, below n t -> n <= m -> below m t.
+Proof. intros n m t H L x I. specialize (H x I). lia. Qed.
+
+Lemma below_fun : forall n a b, below n (TFun a b) <-> below n a /\ below n b.
+Proof.
+  unfold below; simpl; split.
+  - intros H; split; intros x I; apply H; apply in_or_app; auto.
+  - intros [A B] x I. apply in_app_or in I as [I|I]; auto.
+Qed.
+Lemma below_cons : forall n l a b, below n (RCons l a b) <-> below n a /\ below n b.
+Proof.
+  unfold below; simpl; split.
+  - intros H; split; intros x I; apply H; apply in_or_app; auto.
+  - intros [A B] x I. apply in_app_or in I as [I|I]; auto.
+Qed.
+Lemma below_array : forall n a, below n (TArray a) <-> below n a.
+Proof. unfold below; simpl; tauto. Qed.
+Lemma below_var : forall n x, below n (TVar x) <-> x < n.
+Proof. unfold below; simpl; split. intros H; apply H; auto. intros H y [<-|[]]; auto. Qed.
+Lemma below_con : forall n c, below n (TCon c).
+Proof. intros n c x []. Qed.
+Lemma below_nil : forall n, below n RNil.
+Proof. intros n x []. Qed.
+
+Lemma ftv_tsubst : forall f t x, In x (ftv (tsubst f t)) -> exists y, In y (ftv t) /\ In x (ftv (f y)).
+Proof.
+  induction t; simpl; intros x I; try tauto.
+  - exists n; auto.
+  - apply in_app_or in I as [I|I]; [apply IHt1 in I | apply IHt2 in I];
+      destruct I as (y & A & B); exists y; split; auto; apply in_or_app; auto.
+  - auto.
+  - apply in_app_or in I as [I|I]; [apply IHt1 in I | apply IHt2 in I];
+      destruct I as (y & A & B); exists y; split; auto; apply in_or_app; auto.
+Qed.
+
+Lemma below_tsubst : forall n f t, below n t -> (forall x, x < n -> below n (f x)) -> below n (tsubst f t).
+Proof.
+  intros n f t B F x I. apply ftv_tsubst in I as (y & A & C). eapply F; eauto.
+Qed.
+
+Lemma below_subst1 : forall n x u t, below n u -> below n t -> below n (subst1 x u t).
+Proof.
+  intros. apply below_tsubst; auto. intros y L. unfold single. destruct (x =? y); auto.
+  apply below_var; auto.
+Qed.
+
+Lemma below_apply : forall n s t, new_sub n s -> below n t -> below n (apply s t).
+Proof. intros n s t [A _] B. rewrite apply_tsubst. apply below_tsubst; auto. Qed.
+
+Lemma new_sub_nil : forall n, new_sub n [].
+Proof. intros n; split; intros x L; unfold sfun; simpl; auto. apply below_var; auto. Qed.
+
+Lemma new_sub_mono : forall n m s, new_sub n s -> n <= m -> new_sub m s.
+Proof.
+  intros n m s [A B] L; split; intros x Lx.
+  - destruct (Nat.lt_ge_cases x n) as [C|C].
+    + eapply below_mono; eauto.
+    + rewrite B; auto. apply below_var; auto.
+  - apply B; lia.
+Qed.
+
+Lemma sfun_app' : forall s1 s2 x, sfun (s1 ++ s2) x = tsubst (sfun s2) (sfun s1 x).
+Proof. intros. unfold sfun. rewrite apply_app. apply apply_tsubst. Qed.
+
+Lemma new_sub_app : forall n s1 s2, new_sub n s1 -> new_sub n s2 -> new_sub n (s1 ++ s2).
+Proof.
+  intros n s1 s2 [A1 B1] [A2 B2]; split; intros x L; rewrite sfun_app'.
+  - apply below_tsubst; auto.
+  - rewrite B1; auto. simpl. apply B2; auto.
+Qed.
+
+Lemma new_sub_cons : forall n x u s, x < n -> below n u -> new_sub n s -> new_sub n ((x, u) :: s).
+Proof.
+  intros n x u s L B [A1 A2].
+  assert (E : forall y, sfun ((x, u) :: s) y = if x =? y then apply s u else sfun s y).
+  { intros y. unfold sfun; simpl. unfold subst1; simpl. unfold single. destruct (x =? y); auto. }
+  split; intros y Ly; rewrite E.
+  - destruct (x =? y); auto. apply below_apply; auto. split; auto.
+  - destruct (x =? y) eqn:Q. apply Nat.eqb_eq in Q; lia. apply A2; auto.
+Qed.
+
+Lemma eqs_below_subst : forall n x u eqs, below n u -> eqs_below n eqs -> eqs_below n (subst_eqs x u eqs).
+Proof.
+  unfold eqs_below, subst_eqs; intros. rewrite Forall_map. eapply Forall_impl; [|eassumption].
+  simpl; intros p [A B]; split; apply below_subst1; auto.
+Qed.
+
+Lemma eqs_below_mono : forall n m eqs, eqs_below n eqs -> n <= m -> eqs_below m eqs.
+Proof.
+  unfold eqs_below; intros. eapply Forall_impl; [|eassumption].
+  simpl; intros p [A B]; split; eapply below_mono; eauto.
+Qed.
+
+Lemma below_extract : forall n l d row,
+  below n row -> below n d ->
+  match extract l d row with
+  | ExFound a r => below n a /\ below n r
+  | ExTail b r => b < n /\ below n r
+  | ExNone => True
+  end.
+Proof.
+  induction row; simpl; intros Hr Hd; auto.
+  - split; auto. apply below_var in Hr; auto.
+  - apply below_cons in Hr as [Ha Hr].
+    destruct (l =? l0); auto.
+    specialize (IHrow2 Hr Hd). destruct (extract l d row2); simpl; auto.
+    + destruct IHrow2; split; auto. apply below_cons; auto.
+    + destruct IHrow2; split; auto. apply below_cons; auto.
+Qed.
+
+Lemma unify_fresh : forall fuel n eqs s n',
+  eqs_below n eqs -> unify fuel n eqs = Ok (s, n') -> n <= n' /\ new_sub n' s.
+Proof.
+  induction fuel as [|fuel IH]; intros n eqs s n' N H; simpl in H; try discriminate.
+  destruct eqs as [|[t1 t2] rest].
+  { inv H. split; auto. apply new_sub_nil. }
+  inv N. simpl in H2. destruct H2 as [N1 N2]. rename H3 into NR.
+  assert (BIND : forall x u, x < n -> below n u ->
+    (if occurs x u then Fail else
+       match unify fuel n (subst_eqs x u rest) with
+       | Ok (s0, n0) => Ok ((x, u) :: s0, n0) | Fail => Fail | OutOfFuel => OutOfFuel end) = Ok (s, n') ->
+    n <= n' /\ new_sub n' s).
+  { intros x u Lx Nu Hb. destruct (occurs x u); try discriminate.
+    destruct (unify fuel n (subst_eqs x u rest)) as [[s0 n0]| |] eqn:E; try discriminate.
+    inv Hb. apply IH in E as [L S]; [| apply eqs_below_subst; auto].
+    split; auto. apply new_sub_cons; auto. lia. eapply below_mono; eauto. }
+  Ltac usebind3 BIND H :=
+    match type of H with
+    | (if occurs ?x ?u then _ else _) = _ => apply (BIND x u); [ | | exact H]
+    end.
+  destruct t1, t2; try discriminate;
+    try (usebind3 BIND H; [apply below_var; auto | auto]; fail).
+  - destruct (n0 =? n1).
+    + eapply IH; eauto.
+    + usebind3 BIND H; [apply below_var; auto | auto].
+  - destruct (k =? k0); try discriminate. eapply IH; eauto.
+  - destruct (c =? c0); try discriminate. eapply IH; eauto.
+  - apply below_fun in N1 as [? ?]. apply below_fun in N2 as [? ?].
+    eapply IH; [| exact H]. repeat (constructor; simpl; auto).
+  - apply below_array in N1. apply below_array in N2.
+    eapply IH; [| exact H]. repeat (constructor; simpl; auto).
+  - eapply IH; eauto.
+  - pose proof N2 as N2'.
+    apply below_cons in N1 as [? ?]. apply below_cons in N2 as [? ?].
+    destruct (l =? l0).
+    + eapply IH; [| exact H]. repeat (constructor; simpl; auto).
+    + destruct (row_closed t1_2 && row_closed t2_2); try discriminate.
+      pose proof (below_extract (S n) l (TVar n) (RCons l0 t2_1 t2_2)) as X.
+      destruct (extract l (TVar n) (RCons l0 t2_1 t2_2)) eqn:EX; try discriminate.
+      * pose proof (below_extract n l RNil (RCons l0 t2_1 t2_2) N2' (below_nil n)) as Y.
+        assert (EX' : exists r', extract l RNil (RCons l0 t2_1 t2_2) = ExFound a r /\ r' = r).
+        { exists r; split; auto.
+          clear - EX. revert a r EX. generalize (RCons l0 t2_1 t2_2) as row.
+          induction row; simpl; intros a r EX; try discriminate.
+          destruct (l =? l1); auto.
+          destruct (extract l (TVar n) row2) eqn:Q; try discriminate.
+          inv EX. erewrite IHrow2; eauto. }
+        destruct EX' as (r' & EX' & _). rewrite EX' in Y. destruct Y.
+        eapply IH; [| exact H]. repeat (constructor; simpl; auto).
+      * destruct ((b =? n) || occurs b t1_1); try discriminate.
+        match type of H with context [unify ?f ?m ?e] =>
+          destruct (unify f m e) as [[s0 n0]| |] eqn:U; try discriminate end.
+        inv H.
+        destruct X as [Lb Br].
+        { eapply below_mono; eauto. }
+        { apply below_var; auto. }
+        assert (Bu : below (S n) (RCons l t1_1 (TVar n))).
+        { apply below_cons; split. eapply below_mono; eauto. apply below_var; auto. }
+        apply IH in U as [L S].
+        2:{ change (eqs_below (S n) (subst_eqs b (RCons l t1_1 (TVar n)) ((t1_2, r) :: rest))).
+            apply eqs_below_subst; auto.
+            constructor; simpl. split; auto. eapply below_mono; eauto.
+            eapply eqs_below_mono; eauto. }
+        split. lia. apply new_sub_cons; auto. lia. eapply below_mono; eauto.
+Qed.
+
+
+Lemma env_below_cons : forall x t G n, env_below ((x, t) :: G) n <-> below n t /\ env_below G n.
+Proof.
+  unfold env_below, ftv_env, below; simpl; split.
+  - intros H; split; intros y I; apply H; apply in_or_app; auto.
+  - intros [A B] y I. apply in_app_or in I as [I|I]; auto.
+Qed.
+
+Lemma env_below_mono : forall G n m, env_below G n -> n <= m -> env_below G m.
+Proof. intros G n m H L x I. specialize (H x I). lia. Qed.
+
+Lemma env_below_apply : forall s G m, env_below G m -> new_sub m s -> env_below (apply_env s G) m.
+Proof.
+  induction G as [|[x t] G]; intros m B S; simpl.
+  - intros y [].
+  - apply env_below_cons in B as [B1 B2]. apply env_below_cons. split; auto.
+    apply below_apply; auto.
+Qed.
+
+Lemma lookup_below : forall x G n sc, env_below G n -> lookup x G = Some sc -> below n sc.
+Proof.
+  induction G as [|[y t] G]; simpl; intros n sc B L; try discriminate.
+  apply env_below_cons in B as [B1 B2].
+  destruct (x =? y). inv L; auto. eauto.
+Qed.
+
+Lemma ftv_tinst_fresh : forall n sc x,
+  In x (ftv (tinst (fresh_inst n) sc)) -> In x (ftv sc) \/ (n <= x < n + gen_bound sc).
+Proof.
+  induction sc; simpl; intros x I; try tauto.
+  - destruct I as [<-|[]]. right. unfold fresh_inst. lia.
+  - apply in_app_or in I as [I|I]; [apply IHsc1 in I | apply IHsc2 in I]; destruct I as [I|I];
+      try (left; apply in_or_app; auto; fail); right; lia.
+  - auto.
+  - apply in_app_or in I as [I|I]; [apply IHsc1 in I | apply IHsc2 in I]; destruct I as [I|I];
+      try (left; apply in_or_app; auto; fail); right; lia.
+Qed.
+
+Lemma below_tinst_fresh : forall n sc, below n sc -> below (n + gen_bound sc) (tinst (fresh_inst n) sc).
+Proof.
+  intros n sc B x I. apply ftv_tinst_fresh in I as [I|I]. specialize (B x I). lia. lia.
+Qed.
+
+Lemma ftv_gen : forall G t x, In x (ftv (gen G t)) -> In x (ftv t).
+Proof.
+  intros G t x I. unfold gen in I. apply ftv_tsubst in I as (y & A & B).
+  unfold gen_fun in B. destruct (index_of y (gen_vars G t)); simpl in B; try tauto.
+  destruct B as [<-|[]]; auto.
+Qed.
+
+Lemma below_gen : forall G t n, below n t -> below n (gen G t).
+Proof. intros G t n B x I. apply B. eapply ftv_gen; eauto. Qed.
+
+Lemma eqs_below1 : forall n a b, below n a -> below n b -> eqs_below n [(a, b)].
+Proof. intros. constructor; simpl; auto. Qed.
+
+Ltac bl :=
+  repeat match goal with
+  | |- below _ (TVar _) => apply below_var; lia
+  | |- below _ (TCon _) => apply below_con
+  | |- below _ tint => apply below_con
+  | |- below _ tbool => apply below_con
+  | |- below _ tstring => apply below_con
+  | |- below _ RNil => apply below_nil
+  | |- below _ (TFun _ _) => apply below_fun; split
+  | |- below _ (RCons _ _ _) => apply below_cons; split
+  | |- below _ (TArray _) => apply below_array
+  | |- below _ (apply _ _) => apply below_apply
+  | |- new_sub _ (_ ++ _) => apply new_sub_app
+  | H : below ?n ?t |- below ?m ?t => apply (below_mono n m t H); lia
+  | H : new_sub ?n ?s |- new_sub ?m ?s => apply (new_sub_mono n m s H); lia
+  end.
+
+Lemma infer_fresh : forall e fuel G n s t n',
+  env_below G n -> infer fuel G e n = Ok (s, t, n') ->
+  n <= n' /\ below n' t /\ new_sub n' s.
+Proof.
+  induction e; intros fuel G n0 s t n' B H.
+  - inv H. split; [lia | split; [bl | apply new_sub_nil]].
+  - inv H. split; [lia | split; [bl | apply new_sub_nil]].
+  - apply infer_var_inv in H as (sc & L & -> & -> & ->).
+    split; [lia | split; [apply below_tinst_fresh; eapply lookup_below; eauto | apply new_sub_nil]].
+  - apply infer_lam_inv in H as (t1 & H & ->).
+    apply IHe in H as (L & Bt & S).
+    2:{ apply env_below_cons; split. bl. eapply env_below_mono; eauto. }
+    split; [lia | split; [bl | bl]]; auto.
+  - apply infer_app_inv in H as (s1 & t1 & n1 & s2 & t2 & n2 & u & H1 & H2 & H3 & -> & ->).
+    apply IHe1 in H1 as (L1 & B1 & S1); auto.
+    apply IHe2 in H2 as (L2 & B2 & S2).
+    2:{ apply env_below_apply; auto. eapply env_below_mono; eauto. }
+    apply unify_fresh in H3 as (L3 & S3).
+    2:{ apply eqs_below1; bl. }
+    split; [lia | split; [bl | bl]]; auto.
+  - apply infer_let_inv in H as (s1 & t1 & n1 & s2 & H1 & H2 & ->).
+    apply IHe1 in H1 as (L1 & B1 & S1); auto.
+    apply IHe2 in H2 as (L2 & B2 & S2).
+    2:{ apply env_below_cons; split. apply below_gen; auto.
+        apply env_below_apply; auto. eapply env_below_mono; eauto. }
+    split; [lia | split; [bl | bl]]; auto.
+  - apply infer_fix_inv in H as (s1 & t1 & n1 & u & H1 & H2 & -> & ->).
+    apply IHe in H1 as (L1 & B1 & S1).
+    2:{ apply env_below_cons; split. bl. apply env_below_cons; split. bl.
+        eapply env_below_mono; eauto. }
+    apply unify_fresh in H2 as (L2 & S2).
+    2:{ apply eqs_below1; bl. }
+    split; [lia | split; [bl | bl]]; auto.
+  - apply infer_if_inv in H as (s0 & t0 & n00 & u0 & m0 & s1 & t1 & n1 & s2 & t2 & n2 & u & H0 & U0 & H1 & H2 & U & -> & ->).
+    apply IHe1 in H0 as (L0 & B0 & S0); auto.
+    apply unify_fresh in U0 as (LU0 & SU0).
+    2:{ apply eqs_below1; bl. }
+    apply IHe2 in H1 as (L1 & B1 & S1).
+    2:{ apply env_below_apply. eapply env_below_mono; eauto. lia. bl. }
+    apply IHe3 in H2 as (L2 & B2 & S2).
+    2:{ apply env_below_apply; auto. apply env_below_apply. eapply env_below_mono; eauto. lia. bl. }
+    apply unify_fresh in U as (LU & SU).
+    2:{ apply eqs_below1; bl. }
+    split; [lia | split; [bl | bl]]; auto.
+  - apply infer_eq_inv in H as (s1 & t1 & n1 & u1 & m1 & s2 & t2 & n2 & u2 & H1 & U1 & H2 & U2 & -> & ->).
+    apply IHe1 in H1 as (L1 & B1 & S1); auto.
+    apply unify_fresh in U1 as (LU1 & SU1).
+    2:{ apply eqs_below1; bl. }
+    apply IHe2 in H2 as (L2 & B2 & S2).
+    2:{ apply env_below_apply. eapply env_below_mono; eauto. lia. bl. }
+    apply unify_fresh in U2 as (LU2 & SU2).
+    2:{ apply eqs_below1; bl. }
+    split; [lia | split; [bl | bl]]; auto.
+  - inv H. split; [lia | split; [bl | apply new_sub_nil]].
+  - apply infer_fcons_inv in H as (s1 & t1 & n1 & s2 & t2 & _ & _ & H1 & H2 & -> & ->).
+    apply IHe1 in H1 as (L1 & B1 & S1); auto.
+    apply IHe2 in H2 as (L2 & B2 & S2).
+    2:{ apply env_below_apply; auto. eapply env_below_mono; eauto. }
+    split; [lia | split; [bl | bl]]; auto.
+  - apply infer_proj_inv in H as (s1 & t1 & n1 & u & H1 & U & -> & ->).
+    apply IHe in H1 as (L1 & B1 & S1); auto.
+    apply unify_fresh in U as (LU & SU).
+    2:{ apply eqs_below1; bl. }
+    split; [lia | split; [bl | bl]]; auto.
+  - inv H. split; [lia | split; [bl | apply new_sub_nil]].
+  - apply infer_acons_inv in H as (s1 & t1 & n1 & s2 & t2 & n2 & u & _ & H1 & H2 & U & -> & ->).
+    apply IHe1 in H1 as (L1 & B1 & S1); auto.
+    apply IHe2 in H2 as (L2 & B2 & S2).
+    2:{ apply env_below_apply; auto. eapply env_below_mono; eauto. }
+    apply unify_fresh in U as (LU & SU).
+    2:{ apply eqs_below1; bl. }
+    split; [lia | split; [bl | bl]]; auto.
+Qed.
+
+
+(* ------------------------------------------------------------------ principal types: tools *)
+
+Fixpoint tboth (th ro : nat -> ty) (t : ty) : ty :=
+  match t with
+  | TVar n => th n
+  | TGen k => ro k
+  | TCon c => TCon c
+  | TFun a b => TFun (tboth th ro a) (tboth th ro b)
+  | TArray a => TArray (tboth th ro a)
+  | RNil => RNil
+  | RCons l a r => RCons l (tboth th ro a) (tboth th ro r)
+  end.
+
+Definition comp (th : nat -> ty) (s : subst) : nat -> ty := fun x => tsubst th (sfun s x).
+Definition agree (n : nat) (f g : nat -> ty) : Prop := forall x, x < n -> f x = g x.
+Definition upd (th : nat -> ty) (k : nat) (v : ty) : nat -> ty := fun x => if x =? k then v else th x.
+
+Lemma tsubst_comp_apply : forall th s t, tsubst (comp th s) t = tsubst th (apply s t).
+Proof. intros. rewrite apply_tsubst, tsubst_comp. reflexivity. Qed.
+
+Lemma tsubst_agree : forall n f g t, below n t -> agree n f g -> tsubst f t = tsubst g t.
+Proof. intros. apply tsubst_ext_in. intros x I. apply H0. apply H; auto. Qed.
+
+Lemma agree_upd : forall th k v, agree k th (upd th k v).
+Proof. intros th k v x L. unfold upd. destruct (x =? k) eqn:E; auto. apply Nat.eqb_eq in E; lia. Qed.
+
+Lemma upd_same : forall th k v, upd th k v k = v.
+Proof. intros. unfold upd. rewrite Nat.eqb_refl. reflexivity. Qed.
+
+Lemma agree_mono : forall n m f g, agree m f g -> n <= m -> agree n f g.
+Proof. intros n m f g A L x Lx. apply A. lia. Qed.
+
+Lemma agree_nil : forall n th, agree n th (comp th []).
+Proof. intros n th x L. reflexivity. Qed.
+
+Lemma agree_step : forall n n1 th th1 th2 s1 s2,
+  agree n th (comp th1 s1) -> new_sub n1 s1 -> n <= n1 -> agree n1 th1 (comp th2 s2) ->
+  agree n th (comp th2 (s1 ++ s2)).
+Proof.
+  intros n n1 th th1 th2 s1 s2 A1 [S1 _] L A2 x Lx.
+  rewrite A1; auto. unfold comp. rewrite sfun_app'.
+  rewrite tsubst_comp. change (fun x0 => tsubst th2 (sfun s2 x0)) with (comp th2 s2).
+  apply (tsubst_agree n1); auto. apply S1. lia.
+Qed.
+
+Lemma agree_unify : forall n m th th2 th' s u,
+  agree n th (comp th2 s) -> new_sub m s -> n <= m -> agree m th2 th' ->
+  (forall t, tsubst th' (apply u t) = tsubst th' t) ->
+  agree n th (comp th' (s ++ u)).
+Proof.
+  intros n m th th2 th' s u A [S _] L A2 M x Lx.
+  rewrite A; auto. unfold comp. rewrite sfun_app'. rewrite <- apply_tsubst. rewrite M.
+  apply (tsubst_agree m); auto. apply S. lia.
+Qed.
+
+Lemma tsubst_eq_ftv : forall f g t, tsubst f t = tsubst g t -> forall x, In x (ftv t) -> f x = g x.
+Proof.
+  induction t; simpl; intros E x I; try tauto.
+  - destruct I as [<-|[]]; auto.
+  - inv E. apply in_app_or in I as [I|I]; auto.
+  - inv E. auto.
+  - inv E. apply in_app_or in I as [I|I]; auto.
+Qed.
+
+Lemma tboth_nogen : forall th ro t, nogen t -> tboth th ro t = tsubst th t.
+Proof.
+  induction t; simpl; intros N; auto; try tauto.
+  - destruct N; rewrite IHt1, IHt2; auto.
+  - rewrite IHt; auto.
+  - destruct N; rewrite IHt1, IHt2; auto.
+Qed.
+
+Lemma tboth_tsubst : forall th ro f t,
+  nogen_fun f -> tboth th ro (tsubst f t) = tboth (fun x => tsubst th (f x)) ro t.
+Proof.
+  induction t; simpl; intros N; auto.
+  - apply tboth_nogen. apply N.
+  - rewrite IHt1, IHt2; auto.
+  - rewrite IHt; auto.
+  - rewrite IHt1, IHt2; auto.
+Qed.
+
+Lemma tsubst_tinst : forall th ro t, tsubst th (tinst ro t) = tboth th (fun k => tsubst th (ro k)) t.
+Proof. induction t; simpl; auto; congruence. Qed.
+
+Lemma tboth_ext_in : forall th th' ro ro' t,
+  (forall x, In x (ftv t) -> th x = th' x) -> (forall k, ro k = ro' k) -> tboth th ro t = tboth th' ro' t.
+Proof.
+  induction t; simpl; intros A B; auto.
+  - rewrite IHt1, IHt2; auto; intros; apply A; apply in_or_app; auto.
+  - rewrite IHt; auto.
+  - rewrite IHt1, IHt2; auto; intros; apply A; apply in_or_app; auto.
+Qed.
+
+Lemma tboth_gen : forall gs th ro t,
+  nogen t -> tboth th ro (tsubst (gen_fun gs) t) = tsubst (mix gs th ro) t.
+Proof.
+  induction t; simpl; intros N; auto; try tauto.
+  - unfold gen_fun, mix. destruct (index_of n gs); simpl; auto.
+  - destruct N; rewrite IHt1, IHt2; auto.
+  - rewrite IHt; auto.
+  - destruct N; rewrite IHt1, IHt2; auto.
+Qed.
+
+Lemma unify_principal : forall fuel n a b th,
+  tsubst th a = tsubst th b ->
+  unify fuel n [(a, b)] = OutOfFuel \/
+  exists u n', unify fuel n [(a, b)] = Ok (u, n') /\ forall t, tsubst th (apply u t) = tsubst th t.
+Proof.
+  intros fuel n a b th E.
+  assert (U : unifier th [(a, b)]) by (constructor; simpl; auto).
+  destruct (unify fuel n [(a, b)]) as [[u n']| |] eqn:Q; auto.
+  - right. exists u, n'. split; auto. intros. eapply unify_mgu; eauto.
+  - exfalso. eapply unify_complete; eauto.
+Qed.
+
+(* ------------------------------------------------------------------ environments (completeness) *)
+
+Inductive cenv_rel : env -> denv -> Prop :=
+| CR_nil : cenv_rel [] []
+| CR_mono G D x t : nogen t -> cenv_rel G D -> cenv_rel ((x, t) :: G) ((x, DMono t) :: D)
+| CR_poly G D x sc e :
+    cenv_rel G D ->
+    (forall th t', has_type_syn (dsubst th D) e t' -> exists ro, t' = tboth th ro sc) ->
+    cenv_rel ((x, sc) :: G) ((x, DPoly e) :: D).
+
+Lemma cenv_rel_ftv : forall G D, cenv_rel G D -> incl (dftv D) (ftv_env G).
+Proof.
+  induction 1; simpl.
+  - apply incl_refl.
+  - unfold ftv_env; simpl. apply incl_app_app; auto. apply incl_refl.
+  - unfold ftv_env; simpl. apply incl_appr; auto.
+Qed.
+
+Lemma cenv_rel_subst : forall G D f,
+  cenv_rel G D -> nogen_fun f -> cenv_rel (tsubst_env f G) (dsubst f D).
+Proof.
+  induction 1; intros N; simpl.
+  - constructor.
+  - constructor; auto. apply nogen_tsubst; auto.
+  - constructor; auto.
+    intros th t' HT. rewrite dsubst_comp in HT. apply H0 in HT as [ro ->].
+    exists ro. rewrite tboth_tsubst; auto.
+Qed.
+
+Lemma cenv_rel_apply : forall G D s,
+  cenv_rel G D -> nogen_subst s -> cenv_rel (apply_env s G) (dapply s D).
+Proof. intros. rewrite apply_env_tsubst. apply cenv_rel_subst; auto. apply nogen_sfun; auto. Qed.
+
+Lemma dsubst_agree_env : forall G D n th th1 s1,
+  cenv_rel G D -> env_below G n -> agree n th (comp th1 s1) ->
+  dsubst th D = dsubst th1 (dapply s1 D).
+Proof.
+  intros G D n th th1 s1 R B A. unfold dapply. rewrite dsubst_comp.
+  apply dsubst_ext_in. intros x I. apply A. apply B. eapply cenv_rel_ftv; eauto.
+Qed.
+
+Lemma cenv_lookup : forall G D th x t',
+  cenv_rel G D -> has_type_syn (dsubst th D) (EVar x) t' ->
+  exists sc ro, lookup x G = Some sc /\ t' = tboth th ro sc.
+Proof.
+  unfold has_type_syn.
+  induction 1; simpl; intros HT.
+  - inv HT. discriminate.
+  - inv HT; try discriminate.
+    + rewrite Nat.eqb_refl. exists t, TVar. split; auto. rewrite tboth_nogen; auto.
+    + destruct (x =? x0) eqn:E. apply Nat.eqb_eq in E; congruence. auto.
+  - inv HT; try discriminate.
+    + rewrite Nat.eqb_refl.
+      match goal with HH : has_type_gen false _ e _ |- _ => apply H0 in HH as [ro ->] end. eauto.
+    + destruct (x =? x0) eqn:E. apply Nat.eqb_eq in E; congruence. auto.
+Qed.
+
+
+(* inversion of the syntactic declarative system *)
+Lemma hts_lam_inv : forall D x e t, has_type_syn D (ELam x e) t ->
+  exists a b, t = TFun a b /\ has_type_syn ((x, DMono a) :: D) e b.
+Proof. intros D x e t H. inv H; try discriminate. eauto. Qed.
+Lemma hts_app_inv : forall D e1 e2 t, has_type_syn D (EApp e1 e2) t ->
+  exists a, has_type_syn D e1 (TFun a t) /\ has_type_syn D e2 a.
+Proof. intros D e1 e2 t H. inv H; try discriminate. eauto. Qed.
+Lemma hts_let_inv : forall D x e1 e2 t, has_type_syn D (ELet x e1 e2) t ->
+  exists t1, has_type_syn D e1 t1 /\ has_type_syn ((x, DPoly e1) :: D) e2 t.
+Proof. intros D x e1 e2 t H. inv H; try discriminate. eauto. Qed.
+Lemma hts_fix_inv : forall D f x e t, has_type_syn D (EFix f x e) t ->
+  exists a b, t = TFun a b /\ has_type_syn ((x, DMono a) :: (f, DMono (TFun a b)) :: D) e b.
+Proof. intros D f x e t H. inv H; try discriminate. eauto. Qed.
+Lemma hts_if_inv : forall D c e1 e2 t, has_type_syn D (EIf c e1 e2) t ->
+  has_type_syn D c tbool /\ has_type_syn D e1 t /\ has_type_syn D e2 t.
+Proof. intros D c e1 e2 t H. inv H; try discriminate. auto. Qed.
+Lemma hts_eq_inv : forall D e1 e2 t, has_type_syn D (EEq e1 e2) t ->
+  t = tbool /\ has_type_syn D e1 tint /\ has_type_syn D e2 tint.
+Proof. intros D e1 e2 t H. inv H; try discriminate. auto. Qed.
+Lemma hts_fcons_inv : forall D l e fs t, has_type_syn D (EFCons l e fs) t ->
+  exists a r, t = RCons l a r /\ is_fields fs = true /\ has_label l fs = false /\
+              has_type_syn D e a /\ has_type_syn D fs r.
+Proof. intros D l e fs t H. inv H; try discriminate. eauto 10. Qed.
+Lemma hts_proj_inv : forall D e l t, has_type_syn D (EProj e l) t ->
+  exists r, has_type_syn D e (RCons l t r).
+Proof. intros D e l t H. inv H; try discriminate. eauto. Qed.
+Lemma hts_acons_inv : forall D e es t, has_type_syn D (EACons e es) t ->
+  exists a, t = TArray a /\ is_elems es = true /\ has_type_syn D e a /\ has_type_syn D es (TArray a).
+Proof. intros D e es t H. inv H; try discriminate. eauto 10. Qed.
+
+Lemma dsubst_upd : forall G D n th a,
+  cenv_rel G D -> env_below G n -> dsubst (upd th n a) D = dsubst th D.
+Proof.
+  intros G D n th a R B. apply dsubst_ext_in. intros x I. symmetry. apply agree_upd.
+  apply B. eapply cenv_rel_ftv; eauto.
+Qed.
+
+Lemma agree_refl : forall n f, agree n f f.
+Proof. intros n f x L. reflexivity. Qed.
+
+Lemma nogen_unify1 : forall fuel n a b u n',
+  nogen a -> nogen b -> unify fuel n [(a, b)] = Ok (u, n') -> nogen_subst u.
+Proof. intros. eapply unify_nogen; [| eassumption]. constructor; simpl; auto. Qed.
+
+Lemma ftv_env_apply : forall s G x, In x (ftv_env (apply_env s G)) ->
+  exists y, In y (ftv_env G) /\ In x (ftv (sfun s y)).
+Proof.
+  induction G as [|[z t] G]; simpl; intros x I.
+  - destruct I.
+  - unfold ftv_env in *; simpl in *. apply in_app_or in I as [I|I].
+    + rewrite apply_tsubst in I. apply ftv_tsubst in I as (y & A & B). exists y; split; auto. apply in_or_app; auto.
+    + apply IHG in I as (y & A & B). exists y; split; auto. apply in_or_app; auto.
+Qed.
+
+Theorem infer_principal_gen : forall e fuel G D n th t',
+  cenv_rel G D -> env_below G n -> has_type_syn (dsubst th D) e t' ->
+  infer fuel G e n = OutOfFuel \/
+  exists s t n' th', infer fuel G e n = Ok (s, t, n') /\ t' = tsubst th' t /\ agree n th (comp th' s).
+Proof.
+  induction e; intros fuel G D n0 th t' R B HT.
+  - (* EInt *) inv HT; try discriminate. right. exists [], tint, n0, th. repeat split; auto; try apply agree_nil.
+  - inv HT; try discriminate. right. exists [], tstring, n0, th. repeat split; auto; try apply agree_nil.
+  - (* EVar *)
+    destruct (cenv_lookup _ _ _ _ _ R HT) as (sc & ro & L & ->).
+    right. simpl. rewrite L.
+    exists [], (tinst (fresh_inst n0) sc), (n0 + gen_bound sc), (fun y => if y <? n0 then th y else ro (y - n0)).
+    split; auto. split.
+    + rewrite tsubst_tinst. apply tboth_ext_in.
+      * intros y I. pose proof (lookup_below _ _ _ _ B L y I) as Ly.
+        apply Nat.ltb_lt in Ly. rewrite Ly. reflexivity.
+      * intros k. simpl. unfold fresh_inst.
+        assert (E : n0 + k <? n0 = false) by (apply Nat.ltb_ge; lia). rewrite E.
+        f_equal. lia.
+    + intros y Ly. unfold comp. simpl. apply Nat.ltb_lt in Ly. rewrite Ly. reflexivity.
+  - (* ELam *)
+    apply hts_lam_inv in HT as (a & b & -> & HT).
+    assert (HT' : has_type_syn (dsubst (upd th n0 a) ((x, DMono (TVar n0)) :: D)) e b).
+    { simpl. rewrite upd_same. rewrite (dsubst_upd G D); auto. }
+    eapply IHe with (G := (x, TVar n0) :: G) (n := S n0) in HT'.
+    2:{ apply CR_mono; simpl; auto. }
+    2:{ apply env_below_cons; split. apply below_var; lia. eapply env_below_mono; eauto. }
+    destruct HT' as [O|(s & t & n1 & th1 & I & E & A)].
+    { left. simpl. rewrite O. reflexivity. }
+    right. exists s, (TFun (apply s (TVar n0)) t), n1, th1.
+    split. { simpl. rewrite I. reflexivity. }
+    split.
+    + simpl. rewrite <- E. f_equal.
+      change (tsubst th1 (apply s (TVar n0))) with (comp th1 s n0).
+      rewrite <- A; [| lia]. rewrite upd_same. reflexivity.
+    + intros y Ly. rewrite <- A; [| lia]. apply agree_upd; auto.
+  - (* EApp *)
+    apply hts_app_inv in HT as (a & Ha & Hb).
+    destruct (IHe1 fuel G D n0 th _ R B Ha) as [O|(s1 & t1 & n1 & th1 & I1 & E1 & A1)].
+    { left. simpl. rewrite O. reflexivity. }
+    destruct (infer_fresh _ _ _ _ _ _ _ B I1) as (L1 & B1 & S1).
+    destruct (infer_nogen _ _ _ _ _ _ _ I1) as (N1 & Nt1).
+    assert (R1 : cenv_rel (apply_env s1 G) (dapply s1 D)) by (apply cenv_rel_apply; auto).
+    assert (EB1 : env_below (apply_env s1 G) n1).
+    { apply env_below_apply; auto. eapply env_below_mono; eauto. }
+    rewrite (dsubst_agree_env G D n0 th th1 s1) in Hb; auto.
+    destruct (IHe2 fuel _ _ n1 th1 _ R1 EB1 Hb) as [O|(s2 & t2 & n2 & th2 & I2 & E2 & A2)].
+    { left. simpl. rewrite I1. simpl. rewrite O. reflexivity. }
+    destruct (infer_fresh _ _ _ _ _ _ _ EB1 I2) as (L2 & B2 & S2).
+    set (th2' := upd th2 n2 t').
+    assert (AU : agree n2 th2 th2') by apply agree_upd.
+    assert (UN : tsubst th2' (apply s2 t1) = tsubst th2' (TFun t2 (TVar n2))).
+    { simpl. unfold th2' at 3. rewrite upd_same.
+      rewrite <- (tsubst_agree n2 th2 th2'); auto; [| bl].
+      rewrite <- (tsubst_agree n2 th2 th2' t2); auto.
+      rewrite <- E2. rewrite <- tsubst_comp_apply.
+      rewrite <- (tsubst_agree n1 th1 (comp th2 s2)); auto. }
+    destruct (unify_principal fuel (S n2) _ _ _ UN) as [O|(u & n3 & U & M)].
+    { left. simpl. rewrite I1. simpl. rewrite I2. simpl. rewrite O. reflexivity. }
+    right. exists (s1 ++ s2 ++ u), (apply u (TVar n2)), n3, th2'.
+    split. { simpl. rewrite I1. simpl. rewrite I2. simpl. rewrite U. reflexivity. }
+    split.
+    + rewrite M. simpl. unfold th2'. rewrite upd_same. reflexivity.
+    + rewrite app_assoc.
+      assert (AA : agree n0 th (comp th2 (s1 ++ s2))).
+      { apply (agree_step n0 n1 th th1 th2 s1 s2); auto; lia. }
+      apply (agree_unify n0 n2 th th2 th2' (s1 ++ s2) u); auto; try lia.
+      bl.
+  - (* ELet *)
+    apply hts_let_inv in HT as (t1' & H1 & H2).
+    destruct (IHe1 fuel G D n0 th _ R B H1) as [O|(s1 & t1 & n1 & th1 & I1 & E1 & A1)].
+    { left. simpl. rewrite O. reflexivity. }
+    destruct (infer_fresh _ _ _ _ _ _ _ B I1) as (L1 & B1 & S1).
+    destruct (infer_nogen _ _ _ _ _ _ _ I1) as (N1 & Nt1).
+    assert (R1 : cenv_rel (apply_env s1 G) (dapply s1 D)) by (apply cenv_rel_apply; auto).
+    assert (EB1 : env_below (apply_env s1 G) n1).
+    { apply env_below_apply; auto. eapply env_below_mono; eauto. }
+    assert (R2 : cenv_rel ((x, gen (apply_env s1 G) t1) :: apply_env s1 G) ((x, DPoly e1) :: dapply s1 D)).
+    { apply CR_poly; auto.
+      intros th0 t'' HT0. unfold dapply in HT0. rewrite dsubst_comp in HT0.
+      destruct (IHe1 fuel G D n0 _ _ R B HT0) as [O|(s1' & t1x & n1' & th1' & I1' & E1' & A1')].
+      { congruence. }
+      rewrite I1 in I1'. inv I1'.
+      set (gs := gen_vars (apply_env s1' G) t1x).
+      exists (fun i => th1' (nth i gs 0)).
+      unfold gen. fold gs. rewrite tboth_gen; auto.
+      apply tsubst_ext_in. intros y Iy. unfold mix.
+      destruct (index_of y gs) eqn:Q.
+      - apply index_of_nth in Q. rewrite Q. reflexivity.
+      - (* y is not generalised: it is free in the environment *)
+        assert (Fy : In y (ftv_env (apply_env s1' G))).
+        { destruct (memb y (ftv_env (apply_env s1' G))) eqn:Mb.
+          - apply memb_In; auto.
+          - exfalso. assert (Iy' : In y gs).
+            { unfold gs, gen_vars. apply filter_In. split; auto. rewrite Mb. reflexivity. }
+            apply In_index_of in Iy' as [i Ei]. congruence. }
+        apply ftv_env_apply in Fy as (z & Fz & Fy).
+        specialize (A1' z (B z Fz)). unfold comp in A1'.
+        symmetry. eapply tsubst_eq_ftv; eauto. }
+    assert (EB2 : env_below ((x, gen (apply_env s1 G) t1) :: apply_env s1 G) n1).
+    { apply env_below_cons; split; auto. apply below_gen; auto. }
+    assert (H2' : has_type_syn (dsubst th1 ((x, DPoly e1) :: dapply s1 D)) e2 t').
+    { simpl. rewrite <- (dsubst_agree_env G D n0 th th1 s1); auto. }
+    destruct (IHe2 fuel _ _ n1 th1 _ R2 EB2 H2') as [O|(s2 & t2 & n2 & th2 & I2 & E2 & A2)].
+    { left. simpl. rewrite I1. simpl. rewrite O. reflexivity. }
+    right. exists (s1 ++ s2), t2, n2, th2.
+    split. { simpl. rewrite I1. simpl. rewrite I2. reflexivity. }
+    split; auto. eapply agree_step; eauto.
+  - (* EFix *)
+    apply hts_fix_inv in HT as (a & b & -> & HT).
+    set (th0 := upd (upd th n0 a) (S n0) b).
+    assert (T0a : th0 n0 = a).
+    { unfold th0, upd. destruct (n0 =? S n0) eqn:Q. apply Nat.eqb_eq in Q; lia. rewrite Nat.eqb_refl. reflexivity. }
+    assert (T0b : th0 (S n0) = b) by (unfold th0; apply upd_same).
+    assert (A0 : agree n0 th th0).
+    { intros y Ly. unfold th0. rewrite <- agree_upd; [| lia]. apply agree_upd; auto. }
+    assert (HT' : has_type_syn (dsubst th0 ((x, DMono (TVar n0)) :: (f, DMono (TFun (TVar n0) (TVar (S n0)))) :: D)) e b).
+    { simpl. rewrite T0a, T0b.
+      rewrite (dsubst_ext_in th0 th D). exact HT.
+      intros y Iy. symmetry. apply A0. apply B. eapply cenv_rel_ftv; eauto. }
+    eapply IHe with (G := (x, TVar n0) :: (f, TFun (TVar n0) (TVar (S n0))) :: G) (n := S (S n0)) in HT'.
+    2:{ apply CR_mono; simpl; auto. apply CR_mono; simpl; auto. }
+    2:{ apply env_below_cons; split. apply below_var; lia.
+        apply env_below_cons; split. apply below_fun; split; apply below_var; lia.
+        eapply env_below_mono; eauto. }
+    destruct HT' as [O|(s1 & t1 & n1 & th1 & I1 & E1 & A1)].
+    { left. simpl. rewrite O. reflexivity. }
+    assert (EBx : env_below ((x, TVar n0) :: (f, TFun (TVar n0) (TVar (S n0))) :: G) (S (S n0))).
+    { apply env_below_cons; split. apply below_var; lia.
+      apply env_below_cons; split. apply below_fun; split; apply below_var; lia.
+      eapply env_below_mono; eauto. }
+    destruct (infer_fresh _ _ _ _ _ _ _ EBx I1) as (L1 & B1 & S1).
+    assert (UN : tsubst th1 (apply s1 (TVar (S n0))) = tsubst th1 t1).
+    { change (tsubst th1 (apply s1 (TVar (S n0)))) with (comp th1 s1 (S n0)).
+      rewrite <- A1; [| lia]. rewrite T0b. exact E1. }
+    destruct (unify_principal fuel n1 _ _ _ UN) as [O|(u & n2 & U & M)].
+    { left. simpl. rewrite I1. simpl. rewrite O. reflexivity. }
+    right. exists (s1 ++ u), (apply u (apply s1 (TFun (TVar n0) (TVar (S n0))))), n2, th1.
+    split. { simpl. rewrite I1. simpl. rewrite U. reflexivity. }
+    split.
+    + rewrite M. rewrite apply_fun. simpl.
+      change (tsubst th1 (apply s1 (TVar n0))) with (comp th1 s1 n0).
+      change (tsubst th1 (apply s1 (TVar (S n0)))) with (comp th1 s1 (S n0)).
+      rewrite <- !A1; try lia. rewrite T0a, T0b. reflexivity.
+    + assert (A1' : agree n0 th (comp th1 s1)) by (intros y Ly; rewrite A0; auto; apply A1; lia).
+      apply (agree_unify n0 n1 th th1 th1 s1 u); auto; try lia; try apply agree_refl.
+  - (* EIf *)
+    apply hts_if_inv in HT as (Hc & H1 & H2).
+    destruct (IHe1 fuel G D n0 th _ R B Hc) as [O|(s0 & t0 & n00 & th0 & I0 & E0 & A0)].
+    { left. simpl. rewrite O. reflexivity. }
+    destruct (infer_fresh _ _ _ _ _ _ _ B I0) as (L0 & B0 & S0).
+    destruct (infer_nogen _ _ _ _ _ _ _ I0) as (N0 & Nt0).
+    assert (UN0 : tsubst th0 t0 = tsubst th0 tbool) by (rewrite <- E0; reflexivity).
+    destruct (unify_principal fuel n00 _ _ _ UN0) as [O|(u0 & m0 & U0 & M0)].
+    { left. simpl. rewrite I0. simpl. rewrite O. reflexivity. }
+    destruct (unify_fresh _ _ _ _ _ (eqs_below1 _ _ _ B0 (below_con _ _)) U0) as (LU0 & SU0).
+    assert (NU0 : nogen_subst u0) by (eapply nogen_unify1; [| | exact U0]; simpl; auto).
+    assert (A0' : agree n0 th (comp th0 (s0 ++ u0))).
+    { apply (agree_unify n0 n00 th th0 th0 s0 u0); auto; try lia; apply agree_refl. }
+    assert (S0' : new_sub m0 (s0 ++ u0)) by bl.
+    assert (R0 : cenv_rel (apply_env (s0 ++ u0) G) (dapply (s0 ++ u0) D)).
+    { apply cenv_rel_apply; auto. apply nogen_subst_app; auto. }
+    assert (EB0 : env_below (apply_env (s0 ++ u0) G) m0).
+    { apply env_below_apply; auto. eapply env_below_mono; eauto. lia. }
+    rewrite (dsubst_agree_env G D n0 th th0 (s0 ++ u0)) in H1, H2; auto.
+    destruct (IHe2 fuel _ _ m0 th0 _ R0 EB0 H1) as [O|(s1 & t1 & n1 & th1 & I1 & E1 & A1)].
+    { left. simpl. rewrite I0. simpl. rewrite U0. simpl. rewrite O. reflexivity. }
+    destruct (infer_fresh _ _ _ _ _ _ _ EB0 I1) as (L1 & B1 & S1).
+    destruct (infer_nogen _ _ _ _ _ _ _ I1) as (N1 & Nt1).
+    assert (R1 : cenv_rel (apply_env s1 (apply_env (s0 ++ u0) G)) (dapply s1 (dapply (s0 ++ u0) D))).
+    { apply cenv_rel_apply; auto. }
+    assert (EB1 : env_below (apply_env s1 (apply_env (s0 ++ u0) G)) n1).
+    { apply env_below_apply; auto. eapply env_below_mono; eauto. }
+    rewrite (dsubst_agree_env _ _ m0 th0 th1 s1 R0 EB0 A1) in H2.
+    destruct (IHe3 fuel _ _ n1 th1 _ R1 EB1 H2) as [O|(s2 & t2 & n2 & th2 & I2 & E2 & A2)].
+    { left. simpl. rewrite I0. simpl. rewrite U0. simpl. rewrite I1. simpl. rewrite O. reflexivity. }
+    destruct (infer_fresh _ _ _ _ _ _ _ EB1 I2) as (L2 & B2 & S2).
+    assert (UN : tsubst th2 (apply s2 t1) = tsubst th2 t2).
+    { rewrite <- tsubst_comp_apply. rewrite <- (tsubst_agree n1 th1 (comp th2 s2)); auto. congruence. }
+    destruct (unify_principal fuel n2 _ _ _ UN) as [O|(u & n3 & U & M)].
+    { left. simpl. rewrite I0. simpl. rewrite U0. simpl. rewrite I1. simpl. rewrite I2. simpl. rewrite O. reflexivity. }
+    right. exists (s0 ++ u0 ++ s1 ++ s2 ++ u), (apply u t2), n3, th2.
+    split. { simpl. rewrite I0. simpl. rewrite U0. simpl. rewrite I1. simpl. rewrite I2. simpl. rewrite U. reflexivity. }
+    split. { rewrite M. exact E2. }
+    replace (s0 ++ u0 ++ s1 ++ s2 ++ u) with ((((s0 ++ u0) ++ s1) ++ s2) ++ u) by (rewrite <- !app_assoc; reflexivity).
+    assert (AA : agree n0 th (comp th1 ((s0 ++ u0) ++ s1))).
+    { apply (agree_step n0 m0 th th0 th1 (s0 ++ u0) s1); auto; lia. }
+    assert (AB : agree n0 th (comp th2 (((s0 ++ u0) ++ s1) ++ s2))).
+    { apply (agree_step n0 n1 th th1 th2 ((s0 ++ u0) ++ s1) s2); auto; try lia. bl. }
+    apply (agree_unify n0 n2 th th2 th2 (((s0 ++ u0) ++ s1) ++ s2) u); auto; try lia; try apply agree_refl.
+    bl.
+  - (* EEq *)
+    apply hts_eq_inv in HT as (-> & H1 & H2).
+    destruct (IHe1 fuel G D n0 th _ R B H1) as [O|(s1 & t1 & n1 & th1 & I1 & E1 & A1)].
+    { left. simpl. rewrite O. reflexivity. }
+    destruct (infer_fresh _ _ _ _ _ _ _ B I1) as (L1 & B1 & S1).
+    destruct (infer_nogen _ _ _ _ _ _ _ I1) as (N1 & Nt1).
+    assert (UN1 : tsubst th1 t1 = tsubst th1 tint) by (rewrite <- E1; reflexivity).
+    destruct (unify_principal fuel n1 _ _ _ UN1) as [O|(u1 & m1 & U1 & M1)].
+    { left. simpl. rewrite I1. simpl. rewrite O. reflexivity. }
+    destruct (unify_fresh _ _ _ _ _ (eqs_below1 _ _ _ B1 (below_con _ _)) U1) as (LU1 & SU1).
+    assert (NU1 : nogen_subst u1) by (eapply nogen_unify1; [| | exact U1]; simpl; auto).
+    assert (A1' : agree n0 th (comp th1 (s1 ++ u1))).
+    { apply (agree_unify n0 n1 th th1 th1 s1 u1); auto; try lia; apply agree_refl. }
+    assert (S1' : new_sub m1 (s1 ++ u1)) by bl.
+    assert (R1 : cenv_rel (apply_env (s1 ++ u1) G) (dapply (s1 ++ u1) D)).
+    { apply cenv_rel_apply; auto. apply nogen_subst_app; auto. }
+    assert (EB1 : env_below (apply_env (s1 ++ u1) G) m1).
+    { apply env_below_apply; auto. eapply env_below_mono; eauto. lia. }
+    rewrite (dsubst_agree_env G D n0 th th1 (s1 ++ u1)) in H2; auto.
+    destruct (IHe2 fuel _ _ m1 th1 _ R1 EB1 H2) as [O|(s2 & t2 & n2 & th2 & I2 & E2 & A2)].
+    { left. simpl. rewrite I1. simpl. rewrite U1. simpl. rewrite O. reflexivity. }
+    destruct (infer_fresh _ _ _ _ _ _ _ EB1 I2) as (L2 & B2 & S2).
+    assert (UN2 : tsubst th2 t2 = tsubst th2 tint) by (rewrite <- E2; reflexivity).
+    destruct (unify_principal fuel n2 _ _ _ UN2) as [O|(u2 & m2 & U2 & M2)].
+    { left. simpl. rewrite I1. simpl. rewrite U1. simpl. rewrite I2. simpl. rewrite O. reflexivity. }
+    right. exists (s1 ++ u1 ++ s2 ++ u2), tbool, m2, th2.
+    split. { simpl. rewrite I1. simpl. rewrite U1. simpl. rewrite I2. simpl. rewrite U2. reflexivity. }
+    split; auto.
+    replace (s1 ++ u1 ++ s2 ++ u2) with (((s1 ++ u1) ++ s2) ++ u2) by (rewrite <- !app_assoc; reflexivity).
+    assert (AA : agree n0 th (comp th2 ((s1 ++ u1) ++ s2))).
+    { apply (agree_step n0 m1 th th1 th2 (s1 ++ u1) s2); auto; lia. }
+    apply (agree_unify n0 n2 th th2 th2 ((s1 ++ u1) ++ s2) u2); auto; try lia; try apply agree_refl.
+    bl.
+  - (* EFNil *) inv HT; try discriminate. right. exists [], RNil, n0, th. repeat split; auto; try apply agree_nil.
+  - (* EFCons *)
+    apply hts_fcons_inv in HT as (a & r & -> & F1 & F2 & H1 & H2).
+    destruct (IHe1 fuel G D n0 th _ R B H1) as [O|(s1 & t1 & n1 & th1 & I1 & E1 & A1)].
+    { left. simpl. rewrite F1, F2. simpl. rewrite O. reflexivity. }
+    destruct (infer_fresh _ _ _ _ _ _ _ B I1) as (L1 & B1 & S1).
+    destruct (infer_nogen _ _ _ _ _ _ _ I1) as (N1 & Nt1).
+    assert (R1 : cenv_rel (apply_env s1 G) (dapply s1 D)) by (apply cenv_rel_apply; auto).
+    assert (EB1 : env_below (apply_env s1 G) n1).
+    { apply env_below_apply; auto. eapply env_below_mono; eauto. }
+    rewrite (dsubst_agree_env G D n0 th th1 s1) in H2; auto.
+    destruct (IHe2 fuel _ _ n1 th1 _ R1 EB1 H2) as [O|(s2 & t2 & n2 & th2 & I2 & E2 & A2)].
+    { left. simpl. rewrite F1, F2. simpl. rewrite I1. simpl. rewrite O. reflexivity. }
+    right. exists (s1 ++ s2), (RCons l (apply s2 t1) t2), n2, th2.
+    split. { simpl. rewrite F1, F2. simpl. rewrite I1. simpl. rewrite I2. reflexivity. }
+    split.
+    + simpl. rewrite <- E2. f_equal. rewrite <- tsubst_comp_apply.
+      rewrite <- (tsubst_agree n1 th1 (comp th2 s2)); auto.
+    + eapply agree_step; eauto.
+  - (* EProj *)
+    apply hts_proj_inv in HT as (r & H1).
+    destruct (IHe fuel G D n0 th _ R B H1) as [O|(s1 & t1 & n1 & th1 & I1 & E1 & A1)].
+    { left. simpl. rewrite O. reflexivity. }
+    destruct (infer_fresh _ _ _ _ _ _ _ B I1) as (L1 & B1 & S1).
+    set (th1' := upd (upd th1 n1 t') (S n1) r).
+    assert (Ta : th1' n1 = t').
+    { unfold th1', upd. destruct (n1 =? S n1) eqn:Q. apply Nat.eqb_eq in Q; lia. rewrite Nat.eqb_refl. reflexivity. }
+    assert (Tb : th1' (S n1) = r) by (unfold th1'; apply upd_same).
+    assert (AU : agree n1 th1 th1').
+    { intros y Ly. unfold th1'. rewrite <- agree_upd; [| lia]. apply agree_upd; auto. }
+    assert (UN : tsubst th1' t1 = tsubst th1' (RCons l (TVar n1) (TVar (S n1)))).
+    { simpl. rewrite Ta, Tb. rewrite <- (tsubst_agree n1 th1 th1'); auto. }
+    destruct (unify_principal fuel (S (S n1)) _ _ _ UN) as [O|(u & n2 & U & M)].
+    { left. simpl. rewrite I1. simpl. rewrite O. reflexivity. }
+    right. exists (s1 ++ u), (apply u (TVar n1)), n2, th1'.
+    split. { simpl. rewrite I1. simpl. rewrite U. reflexivity. }
+    split.
+    + rewrite M. simpl. auto.
+    + apply (agree_unify n0 n1 th th1 th1' s1 u); auto; try lia.
+  - (* EANil *)
+    inv HT; try discriminate. right. exists [], (TArray (TVar n0)), (S n0), (upd th n0 t).
+    split; auto. split.
+    + simpl. rewrite upd_same. reflexivity.
+    + intros y Ly. unfold comp; simpl. apply agree_upd; auto.
+  - (* EACons *)
+    apply hts_acons_inv in HT as (a & -> & F & H1 & H2).
+    destruct (IHe1 fuel G D n0 th _ R B H1) as [O|(s1 & t1 & n1 & th1 & I1 & E1 & A1)].
+    { left. simpl. rewrite F. simpl. rewrite O. reflexivity. }
+    destruct (infer_fresh _ _ _ _ _ _ _ B I1) as (L1 & B1 & S1).
+    destruct (infer_nogen _ _ _ _ _ _ _ I1) as (N1 & Nt1).
+    assert (R1 : cenv_rel (apply_env s1 G) (dapply s1 D)) by (apply cenv_rel_apply; auto).
+    assert (EB1 : env_below (apply_env s1 G) n1).
+    { apply env_below_apply; auto. eapply env_below_mono; eauto. }
+    rewrite (dsubst_agree_env G D n0 th th1 s1) in H2; auto.
+    destruct (IHe2 fuel _ _ n1 th1 _ R1 EB1 H2) as [O|(s2 & t2 & n2 & th2 & I2 & E2 & A2)].
+    { left. simpl. rewrite F. simpl. rewrite I1. simpl. rewrite O. reflexivity. }
+    destruct (infer_fresh _ _ _ _ _ _ _ EB1 I2) as (L2 & B2 & S2).
+    assert (UN : tsubst th2 (TArray (apply s2 t1)) = tsubst th2 t2).
+    { rewrite <- E2. simpl. f_equal. rewrite <- tsubst_comp_apply.
+      rewrite <- (tsubst_agree n1 th1 (comp th2 s2)); auto. }
+    destruct (unify_principal fuel n2 _ _ _ UN) as [O|(u & n3 & U & M)].
+    { left. simpl. rewrite F. simpl. rewrite I1. simpl. rewrite I2. simpl. rewrite O. reflexivity. }
+    right. exists (s1 ++ s2 ++ u), (apply u t2), n3, th2.
+    split. { simpl. rewrite F. simpl. rewrite I1. simpl. rewrite I2. simpl. rewrite U. reflexivity. }
+    split. { rewrite M. exact E2. }
+    rewrite app_assoc.
+    assert (AA : agree n0 th (comp th2 (s1 ++ s2))).
+    { apply (agree_step n0 n1 th th1 th2 s1 s2); auto; lia. }
+    apply (agree_unify n0 n2 th th2 th2 (s1 ++ s2) u); auto; try lia; try apply agree_refl.
+    bl.
+Qed.
+
+
+(* ------------------------------------------------------------------ closed programs *)
+
+(* Every type derivable without permuting record fields is an instance of the inferred type. *)
+Theorem infer_principal_partial : forall fuel e s t n',
+  infer fuel [] e 0 = Ok (s, t, n') ->
+  forall t', has_type_syn [] e t' -> exists th, t' = tsubst th t.
+Proof.
+  intros fuel e s t n' I t' HT.
+  assert (HT' : has_type_syn (dsubst TVar []) e t') by exact HT.
+  destruct (infer_principal_gen e fuel [] [] 0 TVar t' CR_nil) as [O|(s1 & t1 & n1 & th1 & I1 & E & _)]; auto.
+  - intros x [].
+  - congruence.
+  - rewrite I in I1. inv I1. eauto.
+Qed.
+
+(* A term typable without permuting record fields is never rejected. *)
+Theorem infer_complete_partial : forall fuel e t',
+  has_type_syn [] e t' -> infer fuel [] e 0 <> Fail.
+Proof.
+  intros fuel e t' HT.
+  assert (HT' : has_type_syn (dsubst TVar []) e t') by exact HT.
+  destruct (infer_principal_gen e fuel [] [] 0 TVar t' CR_nil) as [O|(s1 & t1 & n1 & th1 & I1 & _)]; auto.
+  - intros x [].
+  - congruence.
+  - congruence.
+Qed.
+
+(* The full statements, against the declarative system with field permutation. *)
+Definition infer_principal_full_stmt : Prop :=
+  forall fuel e s t n', infer fuel [] e 0 = Ok (s, t, n') ->
+  forall t', has_type [] e t' -> exists th, teq t' (tsubst th t).
+
+Definition infer_complete_full_stmt : Prop :=
+  forall e t', has_type [] e t' -> exists fuel s t n', infer fuel [] e 0 = Ok (s, t, n').
+
+(* Completeness against the system with permutation is false: like unify_type.rs:497 the
+   algorithm refuses to unify two closed records whose fields are in a different order. *)
+Definition rec_ab : expr := EFCons 0 EInt (EFCons 1 EInt EFNil).
+Definition rec_ba : expr := EFCons 1 EInt (EFCons 0 EInt EFNil).
+Definition order_witness : expr := EIf (EEq EInt EInt) rec_ab rec_ba.
+
+Theorem infer_complete_full_refuted :
+  exists e t', has_type [] e t' /\ forall fuel s t n', infer fuel [] e 0 <> Ok (s, t, n').
+Proof.
+  exists order_witness, (RCons 0 tint (RCons 1 tint RNil)). split.
+  - unfold has_type, order_witness, rec_ab, rec_ba.
+    apply T_If.
+    + apply T_Eq; apply T_Int.
+    + repeat (apply T_FCons; auto; try apply T_Int). apply T_FNil.
+    + eapply T_Conv with (t := RCons 1 tint (RCons 0 tint RNil)); auto.
+      * apply teq_swap. discriminate.
+      * repeat (apply T_FCons; auto; try apply T_Int). apply T_FNil.
+  - intros fuel s t n'.
+    destruct fuel as [|[|[|[|[|[|fuel]]]]]]; vm_compute; discriminate.
+Qed.
+
+
+(* ------------------------------------------------------------------ termination on row-free input *)
+
+Fixpoint simple (t : ty) : Prop :=
+  match t with
+  | RCons _ _ _ => False
+  | TFun a b => simple a /\ simple b
+  | TArray a => simple a
+  | _ => True
+  end.
+Definition simple_eqs (eqs : list (ty * ty)) : Prop := Forall (fun p => simple (fst p) /\ simple (snd p)) eqs.
+Definition vars_eqs (eqs : list (ty * ty)) : list nat := flat_map (fun p => ftv (fst p) ++ ftv (snd p)) eqs.
+Fixpoint size_eqs (eqs : list (ty * ty)) : nat :=
+  match eqs with [] => 0 | p :: r => tsize (fst p) + tsize (snd p) + size_eqs r end.
+Definition nvars (eqs : list (ty * ty)) : nat := length (nodup Nat.eq_dec (vars_eqs eqs)).
+
+Lemma tsize_pos : forall t, 1 <= tsize t.
+Proof. destruct t; simpl; lia. Qed.
+
+Lemma simple_subst1 : forall x u t, simple u -> simple t -> simple (subst1 x u t).
+Proof.
+  unfold subst1; induction t; simpl; intros Su St; auto; try tauto.
+  unfold single. destruct (x =? n); simpl; auto.
+Qed.
+
+Lemma simple_subst_eqs : forall x u eqs, simple u -> simple_eqs eqs -> simple_eqs (subst_eqs x u eqs).
+Proof.
+  unfold simple_eqs, subst_eqs; intros. rewrite Forall_map. eapply Forall_impl; [|eassumption].
+  simpl; intros p [A B]; split; apply simple_subst1; auto.
+Qed.
+
+Lemma occurs_ftv : forall x t, occurs x t = true <-> In x (ftv t).
+Proof.
+  induction t; simpl.
+  - split; [intros H; apply Nat.eqb_eq in H; auto | intros [H|[]]; apply Nat.eqb_eq; auto].
+  - split; [discriminate | tauto].
+  - split; [discriminate | tauto].
+  - rewrite orb_true_iff, in_app_iff, IHt1, IHt2; tauto.
+  - exact IHt.
+  - split; [discriminate | tauto].
+  - rewrite orb_true_iff, in_app_iff, IHt1, IHt2; tauto.
+Qed.
+
+Lemma ftv_subst1 : forall x u t y, In y (ftv (subst1 x u t)) -> (In y (ftv t) /\ y <> x) \/ In y (ftv u).
+Proof.
+  intros x u t y I. unfold subst1 in I. apply ftv_tsubst in I as (z & A & B).
+  unfold single in B. destruct (x =? z) eqn:E; auto.
+  simpl in B. destruct B as [<-|[]]. left; split; auto. apply Nat.eqb_neq in E; auto.
+Qed.
+
+Lemma vars_subst_eqs : forall x u eqs y,
+  In y (vars_eqs (subst_eqs x u eqs)) -> (In y (vars_eqs eqs) /\ y <> x) \/ In y (ftv u).
+Proof.
+  induction eqs as [|[a b] eqs]; simpl; intros y I; try tauto.
+  unfold vars_eqs in *; simpl in *.
+  apply in_app_or in I as [I|I].
+  - apply in_app_or in I as [I|I]; apply ftv_subst1 in I as [[A B]|A]; auto;
+      left; split; auto; apply in_or_app; left; apply in_or_app; auto.
+  - apply IHeqs in I as [[A B]|A]; auto. left; split; auto. apply in_or_app; auto.
+Qed.
+
+Lemma nodup_len_incl : forall A B : list nat, incl A B ->
+  length (nodup Nat.eq_dec A) <= length (nodup Nat.eq_dec B).
+Proof.
+  intros A B I. apply NoDup_incl_length. apply NoDup_nodup.
+  intros x Hx. apply nodup_In. apply I. eapply nodup_In; eauto.
+Qed.
+
+Lemma nodup_len_lt : forall (A B : list nat) x, incl A B -> In x B -> ~ In x A ->
+  length (nodup Nat.eq_dec A) < length (nodup Nat.eq_dec B).
+Proof.
+  intros A B x I Hb Ha.
+  assert (L : length (x :: nodup Nat.eq_dec A) <= length (nodup Nat.eq_dec B)).
+  { apply NoDup_incl_length.
+    - constructor. rewrite nodup_In; auto. apply NoDup_nodup.
+    - intros y [<-|Hy]. apply nodup_In; auto. apply nodup_In. apply I. eapply nodup_In; eauto. }
+  simpl in L. lia.
+Qed.
+
+Lemma nvars_bind : forall x u rest a b,
+  occurs x u = false ->
+  incl (x :: ftv u) (ftv a ++ ftv b) ->
+  nvars (subst_eqs x u rest) < nvars ((a, b) :: rest).
+Proof.
+  intros x u rest a b O I. unfold nvars. apply nodup_len_lt with (x := x).
+  - intros y Hy. apply vars_subst_eqs in Hy as [[A B]|A].
+    + unfold vars_eqs; simpl. apply in_or_app; auto.
+    + unfold vars_eqs; simpl. apply in_or_app; left. apply I. right; auto.
+  - unfold vars_eqs; simpl. apply in_or_app; left. apply I. left; auto.
+  - intros Hx. apply vars_subst_eqs in Hx as [[A B]|A]; auto.
+    apply occurs_ftv in A. congruence.
+Qed.
+
+Lemma nvars_incl : forall e1 e2, incl (vars_eqs e1) (vars_eqs e2) -> nvars e1 <= nvars e2.
+Proof. intros. apply nodup_len_incl; auto. Qed.
+
+Lemma fuel_lift : forall f n eqs k, unify f n eqs <> OutOfFuel -> unify (f + k) n eqs = unify f n eqs.
+Proof. intros. eapply unify_fuel_mono; eauto. Qed.
+
+Ltac inc := intros y Hy; unfold vars_eqs in *; simpl in *; repeat rewrite in_app_iff in Hy; repeat rewrite in_app_iff; simpl in *; tauto.
+
+Lemma terminates_aux : forall k m eqs,
+  simple_eqs eqs -> nvars eqs <= k -> size_eqs eqs <= m ->
+  exists fuel, forall n, unify fuel n eqs <> OutOfFuel.
+Proof.
+  induction k as [|k IHk]; intro m; induction m as [|m IHm]; intros eqs S NV SZ;
+    (destruct eqs as [|[t1 t2] rest]; [exists 1; intros; simpl; discriminate|]);
+    try (simpl in SZ; pose proof (tsize_pos t1); pose proof (tsize_pos t2); lia).
+  (* k = 0 and k = S k share the script; binding a variable needs a variable to exist *)
+  all: inv S; simpl in H1; destruct H1 as [S1 S2]; rename H2 into SR.
+  all: assert (REC : forall eqs', simple_eqs eqs' -> incl (vars_eqs eqs') (vars_eqs ((t1, t2) :: rest)) ->
+                 size_eqs eqs' <= m -> exists fuel, forall n, unify fuel n eqs' <> OutOfFuel)
+         by (intros eqs' Se Ie Le; apply IHm; auto; eapply Nat.le_trans; [apply nvars_incl; eauto | auto]).
+  - (* k = 0: no variables *)
+    assert (NOV : forall x, ~ In x (ftv t1 ++ ftv t2)).
+    { intros x Hx. unfold nvars, vars_eqs in NV; simpl in NV.
+      assert (In x (nodup Nat.eq_dec ((ftv t1 ++ ftv t2) ++ flat_map (fun p => ftv (fst p) ++ ftv (snd p)) rest))).
+      { apply nodup_In. apply in_or_app; auto. }
+      destruct (nodup Nat.eq_dec _); simpl in *; [tauto | lia]. }
+    destruct t1, t2; simpl in S1, S2; try tauto;
+      try (match goal with
+           | |- context [(TVar ?x, _) :: rest] => exfalso; apply (NOV x); rewrite in_app_iff; simpl; tauto
+           | |- context [(_, TVar ?x) :: rest] => exfalso; apply (NOV x); rewrite in_app_iff; simpl; tauto
+           end; fail);
+      try (exists 1; intros; simpl; discriminate).
+    + destruct (REC rest SR) as [f Hf]; [inc | simpl in SZ; lia|].
+      exists (S f). intros n. simpl. destruct (k =? k0); auto; discriminate.
+    + destruct (REC rest SR) as [f Hf]; [inc | simpl in SZ; lia|].
+      exists (S f). intros n. simpl. destruct (c =? c0); auto; discriminate.
+    + match goal with |- exists fuel, forall n, unify fuel n ((TFun ?a ?b, TFun ?a' ?b') :: _) <> _ =>
+        destruct (REC ((a, a') :: (b, b') :: rest)) as [f Hf] end.
+      * repeat (constructor; simpl; try tauto).
+      * inc.
+      * simpl in *. lia.
+      * exists (S f). intros n. simpl. auto.
+    + match goal with |- exists fuel, forall n, unify fuel n ((TArray ?a, TArray ?a') :: _) <> _ =>
+        destruct (REC ((a, a') :: rest)) as [f Hf] end.
+      * repeat (constructor; simpl; try tauto).
+      * inc.
+      * simpl in *. lia.
+      * exists (S f). intros n. simpl. auto.
+    + destruct (REC rest SR) as [f Hf]; [inc | simpl in SZ; lia|].
+      exists (S f). intros n. simpl. auto.
+  - (* k = S k *)
+    assert (BIND : forall x u, simple u -> incl (x :: ftv u) (ftv t1 ++ ftv t2) ->
+      exists fuel, forall n,
+        (if occurs x u then Fail else
+           match unify fuel n (subst_eqs x u rest) with
+           | Ok (s0, n0) => Ok ((x, u) :: s0, n0) | Fail => Fail | OutOfFuel => OutOfFuel end) <> (@OutOfFuel (subst * nat))).
+    { intros x u Su Iu. destruct (occurs x u) eqn:O.
+      - exists 0. intros; discriminate.
+      - destruct (IHk (size_eqs (subst_eqs x u rest)) (subst_eqs x u rest)) as [f Hf]; auto.
+        + apply simple_subst_eqs; auto.
+        + pose proof (nvars_bind x u rest t1 t2 O Iu). lia.
+        + exists f. intros n. specialize (Hf n).
+          destruct (unify f n (subst_eqs x u rest)) as [[s0 n0]| |]; try discriminate. congruence. }
+    destruct t1, t2; simpl in S1, S2; try tauto;
+      try (exists 1; intros; simpl; discriminate);
+      try (match goal with
+           | |- exists fuel, forall n, unify fuel n ((TVar ?x, ?u) :: _) <> _ =>
+               destruct (BIND x u) as [f Hf]; [simpl; tauto | inc |
+                 exists (S f); intros nn; simpl; apply Hf]
+           | |- exists fuel, forall n, unify fuel n ((?u, TVar ?x) :: _) <> _ =>
+               destruct (BIND x u) as [f Hf]; [simpl; tauto | inc |
+                 exists (S f); intros nn; simpl; apply Hf]
+           end; fail).
+    + (* var var *)
+      destruct (REC rest SR) as [f1 Hf1]; [inc | simpl in SZ; lia|].
+      destruct (BIND n (TVar n0)) as [f2 Hf2]; [simpl; auto | inc |].
+      exists (S (f1 + f2)). intros n1. simpl.
+      destruct (n =? n0) eqn:E.
+      * rewrite fuel_lift; auto.
+      * specialize (Hf2 n1). simpl in Hf2. rewrite E in Hf2.
+        rewrite (Nat.add_comm f1 f2). rewrite fuel_lift; auto.
+        intros C. rewrite C in Hf2. apply Hf2. reflexivity.
+    + destruct (REC rest SR) as [f Hf]; [inc | simpl in SZ; lia|].
+      exists (S f). intros nn. simpl. destruct (k0 =? k1); auto; discriminate.
+    + destruct (REC rest SR) as [f Hf]; [inc | simpl in SZ; lia|].
+      exists (S f). intros nn. simpl. destruct (c =? c0); auto; discriminate.
+    + match goal with |- exists fuel, forall n, unify fuel n ((TFun ?a ?b, TFun ?a' ?b') :: _) <> _ =>
+        destruct (REC ((a, a') :: (b, b') :: rest)) as [f Hf] end.
+      * repeat (constructor; simpl; try tauto).
+      * inc.
+      * simpl in *. lia.
+      * exists (S f). intros nn. simpl. auto.
+    + match goal with |- exists fuel, forall n, unify fuel n ((TArray ?a, TArray ?a') :: _) <> _ =>
+        destruct (REC ((a, a') :: rest)) as [f Hf] end.
+      * repeat (constructor; simpl; try tauto).
+      * inc.
+      * simpl in *. lia.
+      * exists (S f). intros nn. simpl. auto.
+    + destruct (REC rest SR) as [f Hf]; [inc | simpl in SZ; lia|].
+      exists (S f). intros nn. simpl. auto.
+Qed.
+
+(* On equations without record types unification terminates: enough fuel exists, and (by
+   unify_fuel_mono) any larger amount gives the same answer. *)
+Theorem unify_terminates_partial : forall eqs,
+  simple_eqs eqs ->
+  exists fuel0, forall fuel n, fuel0 <= fuel -> unify fuel n eqs <> OutOfFuel.
+Proof.
+  intros eqs S.
+  destruct (terminates_aux (nvars eqs) (size_eqs eqs) eqs S (Nat.le_refl _) (Nat.le_refl _)) as [f Hf].
+  exists f. intros fuel n L.
+  specialize (Hf n).
+  replace fuel with (f + (fuel - f)) by lia.
+  destruct (unify f n eqs) eqn:Q.
+  - erewrite unify_fuel_mono; eauto; discriminate.
+  - erewrite unify_fuel_mono; eauto; discriminate.
+  - congruence.
+Qed.
+
+Definition unify_terminates_full_stmt : Prop :=
+  forall eqs, exists fuel0, forall fuel n, fuel0 <= fuel -> unify fuel n eqs <> OutOfFuel.
+
+
+(* ------------------------------------------------------------------ metamorphic properties of W *)
+
+(* (1) renaming of program variables by an injective map *)
+Fixpoint ren_expr (f : nat -> nat) (e : expr) : expr :=
+  match e with
+  | EInt => EInt
+  | EStr => EStr
+  | EVar x => EVar (f x)
+  | ELam x e1 => ELam (f x) (ren_expr f e1)
+  | EApp e1 e2 => EApp (ren_expr f e1) (ren_expr f e2)
+  | ELet x e1 e2 => ELet (f x) (ren_expr f e1) (ren_expr f e2)
+  | EFix g x e1 => EFix (f g) (f x) (ren_expr f e1)
+  | EIf c e1 e2 => EIf (ren_expr f c) (ren_expr f e1) (ren_expr f e2)
+  | EEq e1 e2 => EEq (ren_expr f e1) (ren_expr f e2)
+  | EFNil => EFNil
+  | EFCons l e1 fs => EFCons l (ren_expr f e1) (ren_expr f fs)
+  | EProj e1 l => EProj (ren_expr f e1) l
+  | EANil => EANil
+  | EACons e1 es => EACons (ren_expr f e1) (ren_expr f es)
+  end.
+
+Definition ren_env (f : nat -> nat) (G : env) : env := map (fun p => (f (fst p), snd p)) G.
+
+Definition injective (f : nat -> nat) : Prop := forall x y, f x = f y -> x = y.
+
+Lemma lookup_ren : forall f G x, injective f -> lookup (f x) (ren_env f G) = lookup x G.
+Proof.
+  induction G as [|[y t] G]; simpl; intros x I; auto.
+  destruct (x =? y) eqn:E.
+  - apply Nat.eqb_eq in E; subst. rewrite Nat.eqb_refl. reflexivity.
+  - destruct (f x =? f y) eqn:E2.
+    + apply Nat.eqb_eq in E2. apply I in E2. subst. rewrite Nat.eqb_refl in E. discriminate.
+    + apply IHG; auto.
+Qed.
+
+Lemma ren_env_apply : forall f s G, apply_env s (ren_env f G) = ren_env f (apply_env s G).
+Proof. intros. unfold apply_env, ren_env. rewrite !map_map. reflexivity. Qed.
+
+Lemma ftv_env_ren : forall f G, ftv_env (ren_env f G) = ftv_env G.
+Proof. induction G as [|[y t] G]; simpl; auto. unfold ftv_env in *; simpl. rewrite IHG. reflexivity. Qed.
+
+Lemma gen_ren : forall f G t, gen (ren_env f G) t = gen G t.
+Proof. intros. unfold gen, gen_vars. rewrite ftv_env_ren. reflexivity. Qed.
+
+Lemma is_fields_ren : forall f e, is_fields (ren_expr f e) = is_fields e.
+Proof. induction e; simpl; auto. Qed.
+Lemma has_label_ren : forall f l e, has_label l (ren_expr f e) = has_label l e.
+Proof. induction e; simpl; auto. rewrite IHe2. reflexivity. Qed.
+Lemma is_elems_ren : forall f e, is_elems (ren_expr f e) = is_elems e.
+Proof. induction e; simpl; auto. Qed.
+
+(* Renaming the variables of a program (bound and free, consistently) does not change what is
+   inferred - not even the numbering of the type variables. *)
+Theorem infer_alpha_partial : forall f, injective f ->
+  forall e fuel G n, infer fuel (ren_env f G) (ren_expr f e) n = infer fuel G e n.
+Proof.
+  intros f I. induction e; intros fuel G n0; simpl; auto.
+  - rewrite lookup_ren; auto.
+  - change ((f x, TVar n0) :: ren_env f G) with (ren_env f ((x, TVar n0) :: G)). rewrite IHe. reflexivity.
+  - rewrite IHe1. destruct (infer fuel G e1 n0) as [[[s1 t1] n1]| |]; simpl; auto.
+    rewrite ren_env_apply, IHe2. reflexivity.
+  - rewrite IHe1. destruct (infer fuel G e1 n0) as [[[s1 t1] n1]| |]; simpl; auto.
+    rewrite ren_env_apply, gen_ren.
+    change ((f x, gen (apply_env s1 G) t1) :: ren_env f (apply_env s1 G))
+      with (ren_env f ((x, gen (apply_env s1 G) t1) :: apply_env s1 G)).
+    rewrite IHe2. reflexivity.
+  - change ((f x, TVar n0) :: (f f0, TFun (TVar n0) (TVar (S n0))) :: ren_env f G)
+      with (ren_env f ((x, TVar n0) :: (f0, TFun (TVar n0) (TVar (S n0))) :: G)).
+    rewrite IHe. reflexivity.
+  - rewrite IHe1. destruct (infer fuel G e1 n0) as [[[s0 t0] n00]| |]; simpl; auto.
+    destruct (unify fuel n00 [(t0, tbool)]) as [[u0 m0]| |]; simpl; auto.
+    rewrite ren_env_apply, IHe2.
+    destruct (infer fuel (apply_env (s0 ++ u0) G) e2 m0) as [[[s1 t1] n1]| |]; simpl; auto.
+    rewrite ren_env_apply, IHe3. reflexivity.
+  - rewrite IHe1. destruct (infer fuel G e1 n0) as [[[s1 t1] n1]| |]; simpl; auto.
+    destruct (unify fuel n1 [(t1, tint)]) as [[u1 m1]| |]; simpl; auto.
+    rewrite ren_env_apply, IHe2. reflexivity.
+  - rewrite is_fields_ren, has_label_ren.
+    destruct (negb (is_fields e2) || has_label l e2); auto.
+    rewrite IHe1. destruct (infer fuel G e1 n0) as [[[s1 t1] n1]| |]; simpl; auto.
+    rewrite ren_env_apply, IHe2. reflexivity.
+  - rewrite IHe. reflexivity.
+  - rewrite is_elems_ren. destruct (negb (is_elems e2)); auto.
+    rewrite IHe1. destruct (infer fuel G e1 n0) as [[[s1 t1] n1]| |]; simpl; auto.
+    rewrite ren_env_apply, IHe2. reflexivity.
+Qed.
+
+(* (2) an unused binding *)
+Fixpoint occ (x : nat) (e : expr) : bool :=
+  match e with
+  | EInt | EStr | EFNil | EANil => false
+  | EVar y => x =? y
+  | ELam y e1 => (x =? y) || occ x e1
+  | EApp e1 e2 | EEq e1 e2 | EACons e1 e2 => occ x e1 || occ x e2
+  | ELet y e1 e2 => (x =? y) || occ x e1 || occ x e2
+  | EFix g y e1 => (x =? g) || (x =? y) || occ x e1
+  | EIf c e1 e2 => occ x c || occ x e1 || occ x e2
+  | EFCons _ e1 fs => occ x e1 || occ x fs
+  | EProj e1 _ => occ x e1
+  end.
+
+Lemma lookup_insert : forall y x sc G1 G2, x <> y ->
+  lookup y (G1 ++ (x, sc) :: G2) = lookup y (G1 ++ G2).
+Proof.
+  induction G1 as [|[z t] G1]; simpl; intros G2 N.
+  - destruct (y =? x) eqn:E; auto. apply Nat.eqb_eq in E; congruence.
+  - destruct (y =? z); auto.
+Qed.
+
+Lemma apply_closed : forall s t, ftv t = [] -> apply s t = t.
+Proof.
+  intros s t H. rewrite apply_tsubst. rewrite <- (tsubst_id t) at 2.
+  apply tsubst_ext_in. intros x I. rewrite H in I. destruct I.
+Qed.
+
+Lemma apply_env_insert : forall s x sc G1 G2, ftv sc = [] ->
+  apply_env s (G1 ++ (x, sc) :: G2) = apply_env s G1 ++ (x, sc) :: apply_env s G2.
+Proof.
+  intros. unfold apply_env. rewrite map_app. simpl. rewrite apply_closed; auto.
+Qed.
+
+Lemma apply_env_app : forall s G1 G2, apply_env s (G1 ++ G2) = apply_env s G1 ++ apply_env s G2.
+Proof. intros. unfold apply_env. apply map_app. Qed.
+
+Lemma ftv_env_insert : forall x sc G1 G2, ftv sc = [] ->
+  ftv_env (G1 ++ (x, sc) :: G2) = ftv_env (G1 ++ G2).
+Proof.
+  intros. unfold ftv_env. rewrite !flat_map_app. simpl. rewrite H. reflexivity.
+Qed.
+
+Lemma gen_insert : forall x sc G1 G2 t, ftv sc = [] ->
+  gen (G1 ++ (x, sc) :: G2) t = gen (G1 ++ G2) t.
+Proof. intros. unfold gen, gen_vars. rewrite ftv_env_insert; auto. Qed.
+
+Lemma infer_insert : forall x sc, ftv sc = [] ->
+  forall e fuel G1 G2 n, occ x e = false ->
+  infer fuel (G1 ++ (x, sc) :: G2) e n = infer fuel (G1 ++ G2) e n.
+Proof.
+  intros x sc C. induction e; intros fuel G1 G2 n0 O; simpl in *; auto;
+    repeat match goal with H : _ || _ = false |- _ => apply orb_false_iff in H; destruct H end.
+  - rewrite lookup_insert; auto. apply Nat.eqb_neq in O. auto.
+  - pose proof (IHe fuel ((x0, TVar n0) :: G1) G2 (S n0)) as Q; simpl in Q; rewrite Q; auto.
+  - rewrite IHe1; auto. destruct (infer fuel (G1 ++ G2) e1 n0) as [[[s1 t1] n1]| |]; simpl; auto.
+    rewrite apply_env_insert, apply_env_app; auto. rewrite IHe2; auto.
+  - rewrite IHe1; auto. destruct (infer fuel (G1 ++ G2) e1 n0) as [[[s1 t1] n1]| |]; simpl; auto.
+    rewrite apply_env_insert, apply_env_app; auto. rewrite gen_insert; auto.
+    pose proof (IHe2 fuel ((x0, gen (apply_env s1 G1 ++ apply_env s1 G2) t1) :: apply_env s1 G1) (apply_env s1 G2) n1) as Q;
+      simpl in Q; rewrite Q; auto.
+  - pose proof (IHe fuel ((x0, TVar n0) :: (f, TFun (TVar n0) (TVar (S n0))) :: G1) G2 (S (S n0))) as Q;
+      simpl in Q; rewrite Q; auto.
+  - rewrite IHe1; auto. destruct (infer fuel (G1 ++ G2) e1 n0) as [[[s0 t0] n00]| |]; simpl; auto.
+    destruct (unify fuel n00 [(t0, tbool)]) as [[u0 m0]| |]; simpl; auto.
+    rewrite apply_env_insert, apply_env_app; auto. rewrite IHe2; auto.
+    destruct (infer fuel (apply_env (s0 ++ u0) G1 ++ apply_env (s0 ++ u0) G2) e2 m0) as [[[s1 t1] n1]| |]; simpl; auto.
+    rewrite apply_env_insert, apply_env_app; auto. rewrite IHe3; auto.
+  - rewrite IHe1; auto. destruct (infer fuel (G1 ++ G2) e1 n0) as [[[s1 t1] n1]| |]; simpl; auto.
+    destruct (unify fuel n1 [(t1, tint)]) as [[u1 m1]| |]; simpl; auto.
+    rewrite apply_env_insert, apply_env_app; auto. rewrite IHe2; auto.
+  - destruct (negb (is_fields e2) || has_label l e2); auto.
+    rewrite IHe1; auto. destruct (infer fuel (G1 ++ G2) e1 n0) as [[[s1 t1] n1]| |]; simpl; auto.
+    rewrite apply_env_insert, apply_env_app; auto. rewrite IHe2; auto.
+  - rewrite IHe; auto.
+  - destruct (negb (is_elems e2)); auto.
+    rewrite IHe1; auto. destruct (infer fuel (G1 ++ G2) e1 n0) as [[[s1 t1] n1]| |]; simpl; auto.
+    rewrite apply_env_insert, apply_env_app; auto. rewrite IHe2; auto.
+Qed.
+
+Lemma apply_env_nil : forall G, apply_env [] G = G.
+Proof. induction G as [|[y t] G]; simpl; auto. f_equal. apply IHG. Qed.
+
+(* Wrapping a program in a binding `let x = <literal>` of a variable that does not occur in it
+   changes nothing: same acceptance, same substitution, same type, same variable numbering.
+   (Partial: the unused binding is a literal; for an arbitrary typable definition the inferred type
+   is the same only up to renaming of type variables, which is not proved.) *)
+Theorem infer_unused_let_partial : forall x e fuel G n,
+  occ x e = false ->
+  infer fuel G (ELet x EInt e) n = infer fuel G e n /\
+  infer fuel G (ELet x EStr e) n = infer fuel G e n.
+Proof.
+  intros x e fuel G n O. split; simpl; rewrite apply_env_nil.
+  - assert (E : gen G tint = tint) by reflexivity. rewrite E.
+    pose proof (infer_insert x tint eq_refl e fuel [] G n O) as Q; simpl in Q; rewrite Q.
+    destruct (infer fuel G e n) as [[[s t] n']| |]; reflexivity.
+  - assert (E : gen G tstring = tstring) by reflexivity. rewrite E.
+    pose proof (infer_insert x tstring eq_refl e fuel [] G n O) as Q; simpl in Q; rewrite Q.
+    destruct (infer fuel G e n) as [[[s t] n']| |]; reflexivity.
+Qed.
+
+Definition infer_unused_let_full_stmt : Prop :=
+  forall x e1 e2 fuel t1 t2,
+    occ x e2 = false -> infer_top fuel e1 = Ok t1 -> infer_top fuel e2 = Ok t2 ->
+    exists t, infer_top fuel (ELet x e1 e2) = Ok t /\ alpha_eq t t2 = true.
